@@ -132,6 +132,31 @@ pub fn compare_row(
     true
 }
 
+/// Compare two rows for GROUPING: like [`compare_row`], except that NULLs are
+/// "not distinct" — two NULL keys belong to the same group (SQL GROUP BY /
+/// DISTINCT / UNION semantics), and a NULL never equals a non-NULL value.
+/// Join probing must keep using [`compare_row`], where NULL matches nothing.
+#[inline]
+pub fn compare_row_grouping(
+    arrays_a: &[ArrayRef],
+    row_a: usize,
+    arrays_b: &[ArrayRef],
+    row_b: usize,
+) -> bool {
+    for (a, b) in arrays_a.iter().zip(arrays_b.iter()) {
+        match (a.is_null(row_a), b.is_null(row_b)) {
+            (true, true) => continue,
+            (true, false) | (false, true) => return false,
+            (false, false) => {
+                if !compare_array_values(a, row_a, b, row_b) {
+                    return false;
+                }
+            }
+        }
+    }
+    true
+}
+
 /// Compare a single value between two arrays at given rows.
 #[inline]
 fn compare_array_values(a: &ArrayRef, row_a: usize, b: &ArrayRef, row_b: usize) -> bool {
